@@ -540,7 +540,8 @@ def check_C08(ctx, rep):
                 rep.ob('C08.R4', f2, 'flag-write', ok, '%s = %s in %s' % (show(pe), shape(v), name))
         for (b, f3, args, t) in calls(fa2):
             if callee_str(f3).endswith('::fill') and args and contains(args[0], lambda x: isinstance(x, tuple) and x and x[0] == 'fld' and x[3] == 'counter_zeroed_once'):
-                okf = name == 'trigger_events' and args[1][0] == 'tuple' and all(is_const(x, 0) for x in args[1][2])
+                okf = name == 'trigger_events' and ((args[1][0] == 'tuple' and all(is_const(x, 0) for x in args[1][2])) or
+                                                    (args[1][0] == 'cdef' and prog.consts.get(args[1][1], {}).get('allzero') is True))   # a named (false, false)
                 if okf:
                     pe_calls = [b2 for (b2, f4, a4, t4) in calls(fa2) if callee_str(f4).endswith('::process_event') or callee_str(f4).endswith('::transition')]
                     okf = bool(pe_calls) and all(fa2.cfg.dominates(b, b2) for b2 in pe_calls)
